@@ -1,23 +1,28 @@
 import VrpModel.Export
+import VrpModel.ExportText
 import Driver.Proto
 import Driver.Tools
-/-! driver commands for export / load (C10): text layout lives here -/
+/-! driver commands for export / load (C10): text layout lives in VrpModel/ExportText.lean -/
 namespace Vrp.Drv
 open Vrp Vrp.Proto
 
-def pad2 (n : Nat) : String := if n < 10 then s!"0{n}" else toString n
-
-/-- `.2f` text of a value given in hundredths with the sign of the exact value; `space` = the `{: .2f}` flag -/
-def fmt2 (h : Int) (neg : Bool) (space : Bool) : String :=
-  let a := h.natAbs
-  let body := s!"{a / 100}.{pad2 (a % 100)}"
-  if neg then "-" ++ body else if space then " " ++ body else body
-
+/-- the text layer is `VrpModel/ExportText.lean` (the object of the round-trip theorem); the driver only converts to `String` -/
 def renderLines (cchar : String) (f : ExportFile) : List String :=
-  [s!"{cchar} Constant term of objective = {fmt2 f.const f.constNeg false}", s!"{cchar} Diagonal terms"]
-  ++ f.diag.map (fun r => s!"{r.i} {r.j} {fmt2 r.h r.neg true}")
-  ++ [s!"{cchar} Off-Diagonal terms"]
-  ++ f.off.map (fun r => s!"{r.i} {r.j} {fmt2 r.h r.neg true}")
+  (Text.renderLines (cchar.toList.headD '#') f).map String.ofList
+
+def splitLines (cs : List Char) : List (List Char) := Text.splitOn '\n' cs
+
+/-- `loadtext <cc-hex> <text-hex>`: the model of `load_matrix` run on the lines of a real file -/
+def cmdLoadText : P String := do
+  let cc ← tok; let txt ← tok; pEnd
+  let lines := splitLines (unhex txt).toList
+  -- `readlines()` yields no line after a final newline
+  let lines := if lines.getLast? = some [] then lines.dropLast else lines
+  match Text.loadText ((unhex cc).toList.headD '#') lines with
+  | none => pure "err:raises"
+  | some L =>
+    let ent := " ".intercalate (L.entries.map fun e => s!"{e.1} {e.2.1} {e.2.2}")
+    pure s!"ok {L.dim} {L.const} {L.entries.length} {ent}"
 
 /-- `export <r> <c> <M..> <const> <pattern-hex> <ising 0/1>` → lines joined by `\n` encoded as ` ~ ` -/
 def cmdExport : P String := do
@@ -32,6 +37,6 @@ def cmdExport : P String := do
     let ent := " ".intercalate (L.entries.map fun e => s!"{e.1} {e.2.1} {e.2.2}")
     pure s!"ok {" ~ ".intercalate (renderLines cchar f)} | {L.dim} {L.const} {L.entries.length} {ent} | {showBool (loadPinnedAccepts f)}"
 
-def exportCmds : List (String × P String) := [("export", cmdExport)]
+def exportCmds : List (String × P String) := [("export", cmdExport), ("loadtext", cmdLoadText)]
 
 end Vrp.Drv
